@@ -2,7 +2,7 @@
 From Coq Require Import List NArith ZArith Bool Lia.
 Import ListNotations.
 Require Import Base.Wire Base.PyStr C05.Model C07.Model.
-Require gen.T07.
+Require gen.T05 gen.T07.
 Open Scope N_scope.
 
 (* ---------------- the finite universe of exception classes ---------------- *)
@@ -21,7 +21,17 @@ Definition swallows_all (cs : list cls) : bool := forallb (caught cs) all_xc.
 Definition fw_total : bool :=
   forallb (fun x => is_base x || caught gen.T07.FIREWALL_CATCHES x) all_xc.
 
+(* IrcMsg.__init__ turns everything its string branch can raise into MalformedIrcMsg (repair of C05.F3) *)
+Definition parse_catches_ok : bool :=
+  forallb (fun e => existsb (exn_eqb e) gen.T05.PARSE_CATCHES) [IndexError; ValueError; TypeError].
+(* SocketDriver._read logs and skips a line the parser rejects (repair of C07.F4) *)
+Definition parse_guard_ok : bool := caught gen.T07.LOOP_GUARD_PARSE (XE MalformedIrcMsg).
+
 Definition tables_ok : bool :=
+  parse_catches_ok && parse_guard_ok &&
+  (* Irc.takeMsg is firewalled and its _truncateMsg encodes the message: an unencodable one is logged and dropped
+     there, so that data.encode() in _sendIfMsgs (outside every try) only ever sees encodable text *)
+  fw_irc s_takeMsg && gen.T07.TRUNCATE_ENCODES &&
   fw_irc s_feedMsg && fw_cb s_outFilter && fw_total &&
   swallows_all gen.T07.FEED_ADDMSG_CATCHES && swallows_all gen.T07.FEED_INFILTER_CATCHES &&
   swallows_all gen.T07.FEED_CALLBACK_CATCHES &&
@@ -34,6 +44,14 @@ Definition tables_ok : bool :=
 Lemma tables_ok_current : tables_ok = true.
 Proof. vm_compute. reflexivity. Qed.
 
+Lemma T_catches : parse_catches_ok = true.
+Proof. vm_compute. reflexivity. Qed.
+Lemma T_guard : parse_guard_ok = true.
+Proof. vm_compute. reflexivity. Qed.
+Lemma T_take : fw_irc s_takeMsg = true.
+Proof. vm_compute. reflexivity. Qed.
+Lemma T_trunc : gen.T07.TRUNCATE_ENCODES = true.
+Proof. vm_compute. reflexivity. Qed.
 Lemma T_feed : fw_irc s_feedMsg = true.
 Proof. vm_compute. reflexivity. Qed.
 Lemma T_out : fw_cb s_outFilter = true.
@@ -75,6 +93,53 @@ Lemma first_match_caught cs x : caught cs x = true -> exists c, first_match cs x
 Proof.
   induction cs as [|c cs IH]; cbn; [discriminate|].
   destruct (matches c x); [eauto|]. exact IH.
+Qed.
+
+(* ---------------- parsing raises MalformedIrcMsg and nothing else ---------------- *)
+Lemma parse_head_exn vt tg args e :
+  parse_head vt tg args = Raise e -> e = IndexError \/ e = ValueError \/ e = TypeError.
+Proof.
+  unfold parse_head.
+  destruct args as [|a0 rest]; [intro H; inversion H; auto|].
+  destruct a0 as [|c a0']; [intro H; inversion H; auto|].
+  destruct (N.eqb c COLON).
+  - destruct rest as [|cmd rest']; cbn [bind]; [intro H; inversion H; auto|].
+    destruct (dict_get time_key tg) as [[v|]|]; [destruct (vt v)| |]; intro H; inversion H; auto.
+  - cbn [bind].
+    destruct (dict_get time_key tg) as [[v|]|]; [destruct (vt v)| |]; intro H; inversion H; auto.
+Qed.
+
+Lemma split_tags_exn s e : split_tags s = Raise e -> e = IndexError \/ e = ValueError.
+Proof.
+  unfold split_tags. destruct s as [|c s']; [intro H; inversion H; auto|].
+  destruct (N.eqb c AT); [|discriminate].
+  destruct (split1 [SP] (c :: s')) as [[st rest]|]; [discriminate|]. intro H; inversion H; auto.
+Qed.
+
+Lemma parse_inner_exn vt s e :
+  parse_inner vt s = Raise e -> e = IndexError \/ e = ValueError \/ e = TypeError.
+Proof.
+  unfold parse_inner.
+  destruct (split_tags (if endswith1 LF s then s else s ++ [LF])) as [[tg rest]|e'] eqn:Es.
+  - cbn [bind fst snd]. apply parse_head_exn.
+  - cbn [bind]. intro H. inversion H; subst. apply split_tags_exn in Es. tauto.
+Qed.
+
+Lemma parse_only_malformed vt s e : parse vt s = Raise e -> e = MalformedIrcMsg.
+Proof.
+  pose proof T_catches as Hc. unfold parse_catches_ok in Hc. cbn [forallb] in Hc.
+  apply andb_true_iff in Hc as [Hi Hc]. apply andb_true_iff in Hc as [Hv Hc]. apply andb_true_iff in Hc as [Ht _].
+  unfold parse. destruct s as [|c0 s0]; [intro H; inversion H; reflexivity|].
+  destruct (parse_inner vt (c0 :: s0)) as [m|e'] eqn:Ep; [discriminate|].
+  apply parse_inner_exn in Ep. destruct Ep as [E|[E|E]]; subst e'; [rewrite Hi|rewrite Hv|rewrite Ht];
+    intro H; inversion H; reflexivity.
+Qed.
+
+Lemma parse_msg_guarded vt s e : parse_msg vt s = Raise e -> caught gen.T07.LOOP_GUARD_PARSE (XE e) = true.
+Proof.
+  unfold parse_msg. destruct (strip gen.T07.PY_WS s) as [|c s']; [discriminate|].
+  destruct (parse vt (c :: s')) as [m|e'] eqn:Ep; [discriminate|]. intro H. inversion H; subst e'.
+  apply parse_only_malformed in Ep. subst e. exact T_guard.
 Qed.
 
 (* ---------------- the flow ---------------- *)
@@ -150,14 +215,14 @@ Proof.
   destruct (feed_body _ m _) as [p' x]. cbn [snd] in *. rewrite T_feed. apply through_fw_ok. exact H.
 Qed.
 
-Lemma feed_lines_none ls : dispatch_ok -> forall p, forallb line_ok ls = true -> snd (feed_lines ls p) = None.
+(* no line can make the `for line in lines` loop raise: a rejected line is skipped by the per-line guard *)
+Lemma feed_lines_none ls : dispatch_ok -> forall p, snd (feed_lines ls p) = None.
 Proof.
-  intro Hd. induction ls as [|l ls IH]; intros p Hall; [reflexivity|].
-  cbn [forallb] in Hall. apply andb_true_iff in Hall as [Hl Hall].
-  cbn [Model.feed_lines]. unfold Model.line_ok in Hl.
-  destruct (parse_msg vt (decode l)) as [[m|]|e]; [| apply IH; exact Hall | discriminate].
+  intro Hd. induction ls as [|l ls IH]; intros p; [reflexivity|].
+  cbn [Model.feed_lines].
+  destruct (parse_msg vt (decode l)) as [[m|]|e] eqn:E; [| apply IH | rewrite (parse_msg_guarded vt _ e E); apply IH].
   pose proof (feed_msg_none (strip gen.T07.PY_WS (decode l)) m p Hd) as Hf.
-  destruct (feed_msg _ m p) as [p' x]. cbn [snd] in Hf. subst x. cbn [through_try]. apply IH. exact Hall.
+  destruct (feed_msg _ m p) as [p' x]. cbn [snd] in Hf. subst x. cbn [through_try]. apply IH.
 Qed.
 
 Lemma run_outfilters_none a l : Forall (fun c => forall a s, exc_ok (h_exc (cb_out c a s))) l ->
@@ -175,7 +240,97 @@ Proof.
   intro Ho. induction fuel as [|f IH]; intros acc p; cbn [Model.take_all]; [reflexivity|].
   destruct (outq (fst p)) as [|a q]; [reflexivity|].
   pose proof (run_outfilters_none a (rev cbs) (out_ok_rev Ho) (set_outq q (fst p), snd p)) as Hr.
-  destruct (run_outfilters a (rev cbs) _) as [p1 x]. cbn [snd] in Hr. subst x. apply IH.
+  destruct (run_outfilters a (rev cbs) _) as [p1 x]. cbn [snd] in Hr. subst x.
+  destruct (negb gen.T07.TRUNCATE_ENCODES || encodable a); [apply IH|].
+  rewrite T_take. rewrite through_fw_ok by discriminate. reflexivity.
+Qed.
+
+(* what takeMsg hands over is encodable: _truncateMsg has encoded it *)
+Lemma take_all_acc fuel : forall acc p, forallb encodable acc = true ->
+  forallb encodable (snd (fst (take_all fuel acc p))) = true.
+Proof.
+  induction fuel as [|f IH]; intros acc p Ha; cbn [Model.take_all]; [exact Ha|].
+  destruct (outq (fst p)) as [|a q]; [exact Ha|].
+  destruct (run_outfilters a (rev cbs) _) as [p1 x].
+  destruct x as [e|]; [destruct (through_fw _ _); exact Ha|].
+  rewrite T_trunc. cbn [negb orb]. destruct (encodable a) eqn:Ea.
+  - apply IH. rewrite forallb_app, Ha. cbn. rewrite Ea. reflexivity.
+  - destruct (through_fw _ _); exact Ha.
+Qed.
+
+Lemma send_if_msgs_none p : out_ok -> snd (send_if_msgs p) = None.
+Proof.
+  intro Ho. unfold Model.send_if_msgs. destruct (connected (fst p)); [|reflexivity].
+  pose proof (take_all_none (S (length (outq (fst p)))) Ho [] p) as H.
+  pose proof (take_all_acc (S (length (outq (fst p)))) [] p eq_refl) as Ha.
+  destruct (take_all _ [] p) as [[p' acc] x]. cbn [fst snd] in *. subst x. rewrite Ha. reflexivity.
+Qed.
+
+Lemma read_tail_none p x r : out_ok ->
+  (forall e, x = Some e -> caught gen.T07.READ_CATCHES e = true) -> snd (read_tail p x r) = None.
+Proof.
+  intros Ho Hx. unfold Model.read_tail. destruct r; [reflexivity|].
+  destruct x as [e|]; [|apply send_if_msgs_none; exact Ho].
+  destruct (first_match_caught _ _ (Hx e eq_refl)) as [c Hc]. rewrite Hc.
+  destruct c; try reflexivity; try (apply send_if_msgs_none; exact Ho).
+  destruct e; try reflexivity; apply send_if_msgs_none; exact Ho.
+Qed.
+
+(* conn.recv raises nothing but what _read's except clauses name *)
+Definition rv_ok (rv : recv) : bool :=
+  match rv with RRaise x => caught gen.T07.READ_CATCHES x | _ => true end.
+Definition step_buf (rv : recv) (buf : bytes) : bytes :=
+  match rv with RData b => snd (split_lines (buf ++ b)) | _ => buf end.
+
+Lemma read_none rv buf p : dispatch_ok -> out_ok -> rv_ok rv = true ->
+  snd (snd (read rv buf p)) = None /\ fst (read rv buf p) = step_buf rv buf.
+Proof.
+  intros Hd Ho Hs. unfold Model.read, Model.read_body. destruct rv as [b| |x]; cbn [rv_ok step_buf] in *.
+  - destruct (split_lines (buf ++ b)) as [ls rest]. cbn [fst snd] in *.
+    pose proof (feed_lines_none ls Hd p) as Hf. destruct (feed_lines ls p) as [p' x]. cbn [snd] in Hf. subst x.
+    cbn [fst snd]. split; [|reflexivity]. apply read_tail_none; [exact Ho|discriminate].
+  - cbn. auto.
+  - cbn [fst snd]. split; [|reflexivity]. apply read_tail_none; [exact Ho|]. intros e He. inversion He; subst. exact Hs.
+Qed.
+
+Lemma driver_run_none rv buf p : dispatch_ok -> out_ok -> rv_ok rv = true ->
+  snd (snd (driver_run rv buf p)) = None /\
+  (connected (fst p) = true -> fst (driver_run rv buf p) = step_buf rv buf).
+Proof.
+  intros Hd Ho Hs. unfold Model.driver_run. destruct (connected (fst p)); [|split; [reflexivity|discriminate]].
+  pose proof (send_if_msgs_none p Ho) as H1. destruct (send_if_msgs p) as [p1 x1]. cbn [snd] in H1. subst x1.
+  destruct (read_none rv buf p1 Hd Ho Hs) as [H2 H3].
+  destruct (read rv buf p1) as [buf' [p2 x2]]. cbn [fst snd] in *. subst x2 buf'.
+  cbn [fst snd]. split; [apply send_if_msgs_none; exact Ho|reflexivity].
+Qed.
+
+(* the invariant of the run of drivers.run() calls *)
+Definition inv (ms : mstate St) : Prop :=
+  alive ms = true /\ crashed ms = false /\ Forall (fun x => x = None) (escapes ms).
+
+Lemma drivers_run_inv ms rv : dispatch_ok -> out_ok -> inv ms -> rv_ok rv = true -> inv (drivers_run ms rv).
+Proof.
+  intros Hd Ho (Ha & Hc & He) Hs. unfold Model.drivers_run. rewrite Ha, Hc. cbn [andb negb].
+  destruct (driver_run_none rv (m_buf ms) (m_p ms) Hd Ho Hs) as [H1 _].
+  destruct (driver_run rv (m_buf ms) (m_p ms)) as [b' [p' x]]. cbn [fst snd] in *. subst x.
+  repeat split; cbn; auto.
+Qed.
+
+Lemma run_reads_inv rvs : dispatch_ok -> out_ok ->
+  forall ms, inv ms -> forallb rv_ok rvs = true -> inv (run_reads rvs ms).
+Proof.
+  intros Hd Ho. induction rvs as [|rv rvs IH]; intros ms Hi Hr; [exact Hi|].
+  cbn [forallb] in Hr. apply andb_true_iff in Hr as [Hs Hr].
+  unfold Model.run_reads. cbn [fold_left]. apply IH; [|exact Hr]. apply drivers_run_inv; assumption.
+Qed.
+
+(* THE FULL STATEMENT: for every byte stream and every decode function *)
+Lemma loop_survives rvs s :
+  dispatch_ok -> out_ok -> forallb rv_ok rvs = true ->
+  let ms := run_reads rvs (init s) in
+  alive ms = true /\ crashed ms = false /\ Forall (fun x => x = None) (escapes ms).
+Proof.
+  intros Hd Ho Hr. apply (run_reads_inv rvs Hd Ho (init s)); [|exact Hr]. repeat split; cbn; auto.
 Qed.
 
 (* ---- the send side: outbuffer.encode() ---- *)
@@ -257,135 +412,25 @@ Proof.
   induction ls as [|l ls IH]; intros p Hall Hp; [exact Hp|].
   cbn [forallb] in Hall. apply andb_true_iff in Hall as [Hl Hall].
   cbn [Model.feed_lines]. unfold Model.line_ok in Hl.
-  destruct (parse_msg vt (decode l)) as [[m|]|e]; [| apply IH; assumption | discriminate].
+  destruct (parse_msg vt (decode l)) as [[m|]|e]; [| apply IH; assumption | rewrite Hl; apply IH; assumption].
   pose proof (feed_msg_enc (strip gen.T07.PY_WS (decode l)) m p Hl Hp) as Hf.
   destruct (feed_msg _ m p) as [p' x]. cbn [fst] in Hf.
   destruct (through_try _ x); [exact Hf|]. apply IH; assumption.
 Qed.
 
-Lemma take_all_enc fuel : forall acc p,
-  forallb encodable (outq (fst p)) = true -> forallb encodable acc = true ->
-  forallb encodable (outq (fst (fst (fst (take_all fuel acc p))))) = true /\
-  forallb encodable (snd (fst (take_all fuel acc p))) = true /\
-  outbuf (fst (fst (fst (take_all fuel acc p)))) = outbuf (fst p).
-Proof.
-  induction fuel as [|f IH]; intros acc p Hq Ha; cbn [Model.take_all]; [auto|].
-  destruct (outq (fst p)) as [|a q] eqn:Eq; [cbn [fst snd]; rewrite Eq; auto|].
-  cbn [forallb] in Hq. apply andb_true_iff in Hq as [Hqa Hqq].
-  pose proof (run_outfilters_qb a (rev cbs) (set_outq q (fst p), snd p)) as Hb.
-  destruct (run_outfilters a (rev cbs) _) as [p1 x]. cbn [fst] in Hb. unfold qb in Hb. cbn in Hb. injection Hb as Ho Hu.
-  destruct x as [e|].
-  - destruct (through_fw _ _); cbn [fst snd]; rewrite Ho, Hu; auto.
-  - destruct (IH (acc ++ [a]) p1) as (H1 & H2 & H3).
-    + rewrite Ho. exact Hqq.
-    + rewrite forallb_app, Ha. cbn. rewrite Hqa. reflexivity.
-    + rewrite H3, Hu. auto.
-Qed.
-
-Lemma send_if_msgs_none p : out_ok -> enc_ok (fst p) = true ->
-  snd (send_if_msgs p) = None /\ enc_ok (fst (fst (send_if_msgs p))) = true.
-Proof.
-  intros Ho He. unfold Model.send_if_msgs. destruct (connected (fst p)); [|auto].
-  unfold enc_ok, enc_qb, qb in He. cbn [fst snd] in He. apply andb_true_iff in He as [Hq Hb].
-  pose proof (take_all_none (S (length (outq (fst p)))) Ho [] p) as H.
-  destruct (take_all_enc (S (length (outq (fst p)))) [] p Hq eq_refl) as (H1 & H2 & H3).
-  destruct (take_all _ [] p) as [[p' acc] x]. cbn [fst snd] in *. subst x.
-  destruct (outbuf (fst p)) eqn:Eb; [|discriminate]. rewrite H3. cbn [app]. rewrite H2.
-  split; [reflexivity|]. unfold enc_ok, enc_qb, qb. cbn. rewrite H1. reflexivity.
-Qed.
-
-Lemma enc_disconnect p : enc_ok (fst (disconnect St p)) = enc_ok (fst p).
-Proof. reflexivity. Qed.
-
-Lemma read_tail_none p x r : out_ok -> enc_ok (fst p) = true ->
-  (forall e, x = Some e -> caught gen.T07.READ_CATCHES e = true) ->
-  snd (read_tail p x r) = None /\ enc_ok (fst (fst (read_tail p x r))) = true.
-Proof.
-  intros Ho He Hx. unfold Model.read_tail. destruct r; [auto|].
-  destruct x as [e|]; [|apply send_if_msgs_none; assumption].
-  destruct (first_match_caught _ _ (Hx e eq_refl)) as [c Hc]. rewrite Hc.
-  destruct c; try (split; [reflexivity|exact He]); try (apply send_if_msgs_none; assumption).
-  destruct e; try (split; [reflexivity|exact He]); apply send_if_msgs_none; assumption.
-Qed.
-
-(* one recv outcome is harmless for buffer [buf] *)
+(* the clean-echo domain (used by the PING theorem): every echoed payload is encodable *)
 Definition step_ok (rv : recv) (buf : bytes) : bool :=
   match rv with
   | RData b => forallb line_ok (fst (split_lines (buf ++ b)))
   | RClosed => true
   | RRaise x => caught gen.T07.READ_CATCHES x
   end.
-Definition step_buf (rv : recv) (buf : bytes) : bytes :=
-  match rv with RData b => snd (split_lines (buf ++ b)) | _ => buf end.
 
 Lemma dom_cons rv rvs buf : dom (rv :: rvs) buf = step_ok rv buf && dom rvs (step_buf rv buf).
 Proof.
   destruct rv as [b| |x]; cbn [Model.dom step_ok step_buf]; try reflexivity.
 Qed.
 
-Lemma read_none rv buf p : dispatch_ok -> out_ok -> step_ok rv buf = true -> enc_ok (fst p) = true ->
-  snd (snd (read rv buf p)) = None /\ fst (read rv buf p) = step_buf rv buf /\
-  enc_ok (fst (fst (snd (read rv buf p)))) = true.
-Proof.
-  intros Hd Ho Hs He. unfold Model.read, Model.read_body. destruct rv as [b| |x]; cbn [step_ok step_buf] in *.
-  - destruct (split_lines (buf ++ b)) as [ls rest]. cbn [fst snd] in *.
-    pose proof (feed_lines_none ls Hd p Hs) as Hf. pose proof (feed_lines_enc ls p Hs He) as He'.
-    destruct (feed_lines ls p) as [p' x]. cbn [fst snd] in *. subst x.
-    destruct (read_tail_none p' None false Ho He') as [H1 H2]; [discriminate|]. auto.
-  - cbn. auto.
-  - cbn [fst snd]. destruct (read_tail_none p (Some x) false Ho He) as [H1 H2]; [|auto].
-    intros e Hx. inversion Hx; subst. exact Hs.
-Qed.
-
-Lemma driver_run_none rv buf p : dispatch_ok -> out_ok -> step_ok rv buf = true -> enc_ok (fst p) = true ->
-  snd (snd (driver_run rv buf p)) = None /\
-  (connected (fst p) = true -> fst (driver_run rv buf p) = step_buf rv buf) /\
-  enc_ok (fst (fst (snd (driver_run rv buf p)))) = true.
-Proof.
-  intros Hd Ho Hs He. unfold Model.driver_run. destruct (connected (fst p)); [|repeat split; [discriminate|exact He]].
-  destruct (send_if_msgs_none p Ho He) as [H1 He1]. destruct (send_if_msgs p) as [p1 x1]. cbn [fst snd] in *. subst x1.
-  destruct (read_none rv buf p1 Hd Ho Hs He1) as (H2 & H3 & He2).
-  destruct (read rv buf p1) as [buf' [p2 x2]]. cbn [fst snd] in *. subst x2 buf'.
-  cbn [fst snd]. destruct (send_if_msgs_none p2 Ho He2) as [H4 He4]. auto.
-Qed.
-
-(* the invariant of the run of drivers.run() calls *)
-Definition inv (ms : mstate St) (buf : bytes) : Prop :=
-  alive ms = true /\ crashed ms = false /\ Forall (fun x => x = None) (escapes ms) /\
-  (connected (fst (m_p ms)) = true -> m_buf ms = buf) /\ enc_ok (fst (m_p ms)) = true.
-
-Lemma drivers_run_inv ms rv buf : dispatch_ok -> out_ok ->
-  inv ms buf -> step_ok rv buf = true -> inv (drivers_run ms rv) (step_buf rv buf).
-Proof.
-  intros Hd Ho (Ha & Hc & He & Hb & Hen) Hs. unfold Model.drivers_run. rewrite Ha, Hc. cbn [andb negb].
-  destruct (connected (fst (m_p ms))) eqn:Ec.
-  - rewrite (Hb eq_refl) in *.
-    destruct (driver_run_none rv buf (m_p ms) Hd Ho Hs Hen) as (H1 & H2 & H3). specialize (H2 Ec).
-    destruct (driver_run rv buf (m_p ms)) as [b' [p' x]]. cbn [fst snd] in *. subst x b'.
-    repeat split; cbn; auto.
-  - (* not connected: SocketDriver.run sleeps and returns; nothing is read any more *)
-    unfold Model.driver_run. rewrite Ec. repeat split; cbn; auto. rewrite Ec. discriminate.
-Qed.
-
-Lemma run_reads_inv rvs : dispatch_ok -> out_ok ->
-  forall ms buf, inv ms buf -> dom rvs buf = true -> exists buf', inv (run_reads rvs ms) buf'.
-Proof.
-  intros Hd Ho. induction rvs as [|rv rvs IH]; intros ms buf Hi Hdom; [exists buf; exact Hi|].
-  rewrite dom_cons in Hdom. apply andb_true_iff in Hdom as [Hs Hr].
-  unfold Model.run_reads. cbn [fold_left]. eapply IH; [|exact Hr].
-  apply drivers_run_inv; assumption.
-Qed.
-
-Lemma inv_init s : inv (init s) [].
-Proof. repeat split; cbn; auto. Qed.
-
-(* loop survival on the domain *)
-Lemma loop_survives_on_domain rvs s :
-  dispatch_ok -> out_ok -> dom rvs [] = true ->
-  let ms := run_reads rvs (init s) in
-  alive ms = true /\ crashed ms = false /\ Forall (fun x => x = None) (escapes ms).
-Proof.
-  intros Hd Ho Hdom. destruct (run_reads_inv rvs Hd Ho (init s) [] (inv_init s) Hdom) as [b (Ha & Hc & He & _)].
-  auto.
-Qed.
+Lemma step_ok_rv rv buf : step_ok rv buf = true -> rv_ok rv = true.
+Proof. destruct rv; cbn; auto. Qed.
 End Proofs.
